@@ -288,6 +288,68 @@ theorem email_user_sound (c : Cfg) (t : Int) (strGuest uuser query : Bytes) (raw
           · right
             cases allow <;> cases sysop <;> simp_all
 
+/-- **the e-mail token is bound to the user it was issued for, whoever presents it**: a privileged caller
+(PERM_SYSOP / PERM_ACCOUNTS / PERM_ACCTREG, on a route that allows sysops) is let through the requester test
+only — a token whose subject is not the target user is refused for him as for everybody. -/
+theorem email_token_bound_to_its_user (c : Cfg) (t : Int) (strGuest uuser query : Bytes) (tok : Token) (context : Bytes)
+    (allow sysop : Bool) (hsub : claimString tok.sub ≠ some query) :
+    emailUserOK c t strGuest uuser query (.tok tok) context allow sysop = none := by
+  cases h : emailUserOK c t strGuest uuser query (.tok tok) context allow sysop with
+  | none => rfl
+  | some eml =>
+    obtain ⟨_, _, tok', h1, _, _, _, hs, _⟩ := email_user_sound c t strGuest uuser query _ context allow sysop eml h
+    cases h1
+    exact absurd hs hsub
+
+/-- witness for the rule above being needed: the gate WITHOUT the `queryUUserID != emailUserID` test for
+privileged callers (`emailUserOKSysopFirst`: verify, let a sysop through, test requester = target = subject for
+the others) accepts alice's id-e-mail token for the target bob when a sysop presents it. -/
+def emailUserOKSysopFirst (c : Cfg) (t : Int) (strGuest uuser query : Bytes) (raw : Raw) (context : Bytes)
+    (isAllowSysop isSysop : Bool) : Option Bytes :=
+  if query = strGuest then none
+  else match verifyEmailJwt c t raw context with
+    | .error _ => none
+    | .ok (id, eml) =>
+      if isAllowSysop && isSysop then some eml
+      else if uuser ≠ query || query ≠ id.user then none else some eml
+
+theorem sysop_first_gate_unbinds_token :
+    let alice : Bytes := [97, 108, 105, 99, 101]
+    let bob : Bytes := [98, 111, 98]
+    let root : Bytes := [114, 111, 111, 116]
+    let ctx := Token.contextSetIDEmail
+    let tok := createEmailToken srcCfg 1800000000 alice [] [109] ctx (fun k => k == srcCfg.sEmail)
+    emailUserOKSysopFirst srcCfg 1800000000 Token.strGuest root bob (.tok tok) ctx true true = some [109] ∧
+    emailUserOK srcCfg 1800000000 Token.strGuest root bob (.tok tok) ctx true true = none ∧
+    emailUserOK srcCfg 1800000000 Token.strGuest root alice (.tok tok) ctx true true = some [109] := by
+  decide
+
+/-- `GetEmailTokenInfo`: information is given only about a token that verifies for the asked context, is
+unexpired, is not a guest's, and whose subject is the caller — or the caller is privileged. -/
+theorem email_info_sound (c : Cfg) (t : Int) (strGuest uuser : Bytes) (body : Raw) (context : Bytes) (sysop : Bool)
+    (id : Ident) (eml : Bytes)
+    (h : getEmailTokenInfo c t strGuest uuser body context sysop = .ok (id, eml)) :
+    id.user ≠ strGuest ∧ (uuser = id.user ∨ sysop = true) ∧
+    ∃ tok, body = .tok tok ∧ verify c.vEmail tok = true ∧ claimString tok.ctx = some context ∧ Unexpired t tok ∧
+      claimString tok.sub = some id.user ∧ claimString tok.eml = some eml := by
+  unfold getEmailTokenInfo at h
+  split at h
+  · cases h
+  · rename_i id' eml' hv
+    split at h
+    · cases h
+    · rename_i e he
+      simp at h
+      obtain ⟨h1, h2⟩ := h
+      subst h1; subst h2
+      obtain ⟨hq, hreq, tok, ht, hver, hctx, hun, hsub, _⟩ := email_user_sound c t strGuest uuser _ body context true sysop e he
+      obtain ⟨tok', ht', _, _, _, _, _, heml, _⟩ := email_sound_ctx c t body context _ _ hv
+      rw [ht] at ht'; cases ht'
+      refine ⟨hq, ?_, tok, ht, hver, hctx, hun, hsub, heml⟩
+      rcases hreq with h | ⟨_, h⟩
+      · exact Or.inl h
+      · exact Or.inr h
+
 /-! ## tokens of one kind presented as another kind -/
 
 /-- **access_rejects_other_kinds** (refresh token as access token).  The ONLY thing that separates a
